@@ -249,7 +249,7 @@ class BlockTr:
         """current symbolic value of a variable (its entry value is a leaf)"""
         if name in env:
             return env[name]
-        if name.startswith("eff_") or name.startswith("effseq_") or name in ("brk", "cont"):
+        if name.startswith("eff_") or name.startswith("effseq_") or name in ("brk", "cont", "raised"):
             return "false"
         if name == "ret":
             return self.item.get("no_return", "true")
@@ -275,7 +275,7 @@ class BlockTr:
 
     @staticmethod
     def may_return(stmts):
-        return any(isinstance(n, (ast.Return, ast.Break, ast.Continue)) for s in stmts for n in ast.walk(s))
+        return any(isinstance(n, (ast.Return, ast.Break, ast.Continue, ast.Raise)) for s in stmts for n in ast.walk(s))
 
     def assign(self, env, target, term):
         if isinstance(target, (ast.Name, ast.Attribute, ast.Subscript)):
@@ -345,6 +345,10 @@ class BlockTr:
                     env[f"ret_{k}"] = self.expr(env, e)
                 return env
             env["ret"] = self.expr(env, s.value) if s.value is not None else "()"
+            return env
+        if isinstance(s, ast.Raise):
+            # the call is rejected on this path: nothing after it runs
+            env["raised"] = "true"
             return env
         if isinstance(s, (ast.Break, ast.Continue)):
             # leaving the loop body early: the rest of the body is not executed on this path
